@@ -296,6 +296,32 @@ def F41():
     return ok1 and ok2, f"GaussianART(sigma_init=uint8 [16,16]) first weight {w.tolist()}; BayesianART(cov_init=longdouble eye): {d2}"
 
 
+def F43():
+    with quiet():
+        b = BARTMAP(FuzzyART(0.5, 0.01, 1.0), FuzzyART(0.5, 0.01, 1.0), 0.5)
+        n = FuzzyART(0.9, 0.01, 1.0)
+        b.get_params()
+        b.set_params(module_a=n)
+        f = FusionART([FuzzyART(0.5, 0.01, 1.0), FuzzyART(0.5, 0.01, 1.0)], [0.5, 0.5], [2, 2])
+        f.get_params()
+        polluted = sorted(k for k in f.params if k.startswith("module_"))
+    return b.module_a is n and not polluted, f"after get_params(); set_params(module_a=new): module_a is the new one: {b.module_a is n}; FusionART.params polluted with {polluted}"
+
+
+def F44():
+    X = cc(np.array([[.1, .2], [.8, .9], [.15, .25], [.7, .95]]))
+    y = np.array([0, 1, 0, 1]).reshape(-1, 1)
+    try:
+        with quiet():
+            s_ = SimpleARTMAP(FuzzyART(0.5, 0.01, 1.0)).fit(X, y)
+            p = [int(t) for t in s_.predict(X)]
+            d = DeepARTMAP([FuzzyART(0.5, 0.01, 1.0)]).fit([X], y)
+            q = [np.asarray(t).tolist() for t in d.predict([X])]
+    except Exception as e:
+        return False, f"targets given as an (n,1) column: {e!r}"
+    return p == [0, 1, 0, 1] and q == [[0, 1, 0, 1], [0, 1, 0, 1]], f"targets given as an (n,1) column: predict {p}, DeepARTMAP.predict {q}"
+
+
 ALL = {k: v for k, v in list(globals().items()) if k[0] == "F" and k[1:3].isdigit()}
 
 if __name__ == "__main__":
